@@ -309,8 +309,8 @@ def c03_mute(ctx):
     mute_state(ctx)
     mute_guards(ctx)
     load = ctx.repo.func('bespokeasm.assembler.assembly_file.AssemblyFile.load_line_objects')
-    ms = [n for n in walk_no_nested(load.node) if isinstance(n, ast.Assign) and unparse(n.targets[0]) == 'lobj.is_muted']
-    ctx.check(len(ms) == 1 and unparse(ms[0].value) == 'condition_stack.is_muted', 'mute:line-flag=stack-state', load.site(ms[0]) if ms else load.site(),
+    ms = [n for n in walk_no_nested(load.node) if isinstance(n, ast.Assign) and isinstance(n.targets[0], ast.Attribute) and n.targets[0].attr in ('is_muted', '_is_muted')]
+    ctx.check(len(ms) == 1 and unparse(ms[0].value) == 'condition_stack.is_muted' and unparse(ms[0].targets[0]) == 'lobj.is_muted', 'mute:line-flag=stack-state', load.site(ms[0]) if ms else load.site(),
               'a line is muted iff the condition stack is muted when it is reached', '; '.join(unparse(x) for x in ms))
 
 
